@@ -15,7 +15,10 @@ Nothing in here judges anything; pvf/props/c20.py holds the oracle.
 A different interleaver (line-level switch points from pvf/sim/detsched.py) can replace Baton: ControllerRig only
 uses start(fn) / resume(value) -> (kind, info) / yield_(kind, info) -> value / on_sender() / finish().
 """
+import errno
 import hashlib
+import os
+import socket as _socket
 import struct
 import threading
 
@@ -51,6 +54,8 @@ class ScriptSock(FakeSock):
     self.total = 0             # bytes ever accepted (take_sent() does not reset it)
     self.scripted = False      # set once the case's script is installed (handshake traffic is not judged)
     self.trouble = []          # things the socket API contract forbids (harness-side observations)
+    self.peeks = 0
+    self.connect_error = None
 
   def send(self, data, flags=0):
     if not isinstance(data, (bytes, bytearray, memoryview)):
@@ -86,7 +91,26 @@ class ScriptSock(FakeSock):
   def shutdown(self, how):
     self.shutdown_at.append((how, self.total))
     FakeSock.shutdown(self, how)
-    self.eof = True            # after shutdown the read side reports end of stream
+    if how != 1:               # SHUT_RD / SHUT_RDWR: the read side reports end of stream from now on
+      self.eof = True
+
+  def recv(self, n, flags=0):
+    """MSG_PEEK (IOWorker._try_connect probes a connecting socket with recv(1, MSG_PEEK)) returns without
+    consuming; `connect_error` (an errno name) is what the probe of a failed connection attempt raises."""
+    if flags & _socket.MSG_PEEK:
+      self.peeks += 1
+      if self.closed:
+        raise OSError(errno.EBADF, "Bad file descriptor")
+      if self.connect_error is not None:
+        self.fatal = True
+        code = getattr(errno, self.connect_error)
+        raise OSError(code, os.strerror(code))
+      if self.inbox:
+        return bytes(self.inbox[:max(1, n)])
+      if self.eof:
+        return b""
+      raise BlockingIOError(errno.EAGAIN, "Resource temporarily unavailable")
+    return FakeSock.recv(self, n, flags)
 
   def begin_script(self, script):
     """Forget the handshake traffic and start the scripted part of the case."""
@@ -422,14 +446,33 @@ class SwitchRig(object):
       raise HarnessError("ioworker.makePinger is not the fake one")
     self.loop = IOW.RecocoIOLoop()
     self.socks, self.workers, self.closes = [], [], []
-    for i, script in enumerate(scripts):
+    self.connects = []
+    self.on_connect = None       # set by the case runner: fn(worker index), runs inside the connect handler
+    self.handler_errors = []
+    for i, spec in enumerate(scripts):
+      if not isinstance(spec, dict):
+        spec = {"script": spec}
       s = ScriptSock("w%d" % i)
       w = self.loop.new_worker(s)
       self.closes.append(0)
+      self.connects.append(0)
       w.close_handler = lambda w_, i=i: self._on_close(i)
       self.socks.append(s)
       self.workers.append(w)
-      s.begin_script(script or [])
+      s.begin_script(spec.get("script") or [])
+      if spec.get("connecting"):
+        # what PersistentIOWorker / BackoffWorker (the software switch's own connection) do: the worker is
+        # registered while the TCP connection is still being established
+        w._connecting = True
+        w.connect_handler = lambda w_, i=i: self._on_connect(i)
+        if spec.get("refuse"):
+          # a refused connection has no peer bytes; it is only modelled as noticed by _do_send (a socket whose
+          # connect failed would also be reported readable, _do_recv would close the worker and the _do_send of
+          # the same round would call send() on the dead socket and get an error -- a failed connect is not one
+          # of the property's per-send outcomes, so that round is not generated)
+          s.connect_error = "ECONNREFUSED"
+        elif spec.get("peer"):
+          s.feed(b"\x01\x00\x00\x08\x00\x00\x00\x01")     # the peer's first bytes are already there
     self.dead = False
     self.rounds = 0
     self.gen = self.loop.run()
@@ -442,6 +485,15 @@ class SwitchRig(object):
   def _on_close(self, i):
     self.closes[i] += 1
 
+  def _on_connect(self, i):
+    # IOWorker._call_safe swallows exceptions of the handler: harness trouble is kept in a list instead
+    self.connects[i] += 1
+    if self.on_connect is not None:
+      try:
+        self.on_connect(i)
+      except HarnessError as e:
+        self.handler_errors.append(e)
+
   def _advance(self, value):
     try:
       if value is None:
@@ -452,13 +504,16 @@ class SwitchRig(object):
       self.dead = True
       self.sel = None
 
-  def round(self, wmask):
-    """Answer the pending Select: pinger readable iff pinged; of the workers the loop asked to write,
-    those in wmask are writable.  Runs the loop body and the head of the next iteration."""
+  def round(self, wmask, rmask=-1):
+    """Answer the pending Select: pinger readable iff pinged; a worker is readable when the peer's bytes are
+    waiting in its socket and rmask allows; of the workers the loop asked to write, those in wmask are
+    writable.  Runs the loop body and the head of the next iteration."""
     if self.dead:
       return False
     rl, wl, xl = self.sel._args[0], self.sel._args[1], self.sel._args[2]
     r = [x for x in rl if x is self.loop.pinger and x.v_readable()]
+    r += [x for x in rl if x is not self.loop.pinger and x in self.workers
+          and (rmask >> self.workers.index(x)) & 1 and self.socks[self.workers.index(x)].inbox]
     w = [x for x in wl if (wmask >> self.workers.index(x)) & 1]
     self.rounds += 1
     self._advance((r, w, []))
